@@ -47,6 +47,9 @@ CHECKS["C10"] = ("exhaustive enumeration of the syntax.md shape catalog in both 
 CHECKS["C11"] = ("exhaustive enumeration of every single spelling deviation (case per keyword token, radix per constant incl. negative decimal / OFFSET / leading zeros, separator per gap) of every catalog shape: relational oracle (identical emitted list) plus semantic oracle (emitted line executed on the real Interpreter equals the reference effect of the AST instruction)",
     "About one million respellings of 19 000 shapes must assemble to the identical instruction list; each canonical line is executed on two distinguishing states and compared in full with the reference for the AST instruction; ordered triples keep order and count; label case sensitivity; comment placements through the real binary.",
     "DESIGN.md section 6 C11")
+CHECKS["C12"] = ("small-scope exhaustive enumeration of all SET/DB/DW sequences up to length 3 (4 in thorough) over a 45-item alphabet, assembled by the real Preprocessor and loaded by the real DataParser; whole-memory comparison with an independently computed image; every label checked three ways",
+    "All definition sequences of the bound (values at the signed/unsigned extremes, counts 0..65535, strings, segments that wrap at 1 MB): the whole 1 MB equals the reference image, every label resolves to its first byte via the label map, via OFFSET and via a load through the label operand; more than 64 KiB per segment must be diagnosed; DS=0 at start through the CLI.",
+    "DESIGN.md section 6 C12")
 NOT_YET = {}
 
 def main():
